@@ -18,19 +18,36 @@ Definition scorer_mw_Q (rs : rsQ) : mwmap :=
 Lemma side_scorer_min_len : 1 <= s_min_len.
 Proof. vm_compute. discriminate. Qed.
 
+(* the source has the rebuild check (it did not before the repair of R16) *)
+Lemma side_rebuild_check : scorer_rebuild_check = true.
+Proof. reflexivity. Qed.
+
+(* the scorer as the current source has it, over Q *)
+Notation score_c := (score Q Qmult 0%Q 1%Q scorer_rebuild_check c_upper).
+Notation score_old := (score Q Qmult 0%Q 1%Q false c_upper).
+
 Theorem promise_c : forall rs m s cat p, s <> [] ->
-  scoreQ (parse_s m) rs s = Some (cat, p) -> ~ (p == 0)%Q -> c_case_ok s -> c_generates rs s p.
+  score_c (parse_s m) rs s = Some (cat, p) -> ~ (p == 0)%Q -> c_generates rs s p.
+Proof.
+  intros rs m s cat p Hne. unfold parse_s. rewrite side_lower_aligned, side_rebuild_check.
+  apply (promise c_isalpha c_isdigit c_isupper c_lower c_upper c_kbs kb_false_positive_words c_min_run tld_list
+           year_prefixes context_strings s_threshold s_min_len s_max_len side_scorer_min_len side_year_prefixes
+           side_tlds_nonempty side_min_run rs m s cat p Hne). apply good_all.
+Qed.
+
+Theorem promise_old_c : forall rs m s cat p, s <> [] ->
+  score_old (parse_s m) rs s = Some (cat, p) -> ~ (p == 0)%Q -> c_case_ok s -> c_generates rs s p.
 Proof.
   intros rs m s cat p Hne. unfold parse_s. rewrite side_lower_aligned.
-  apply (promise c_isalpha c_isdigit c_isupper c_lower c_upper c_kbs kb_false_positive_words c_min_run tld_list
+  apply (promise_unchecked c_isalpha c_isdigit c_isupper c_lower c_upper c_kbs kb_false_positive_words c_min_run tld_list
            year_prefixes context_strings s_threshold s_min_len s_max_len side_scorer_min_len side_year_prefixes
            side_tlds_nonempty side_min_run rs m s cat p Hne). apply good_all.
 Qed.
 
 (* e-mail / website: classified as such, probability 0 *)
 Theorem email_website_zero : forall (seg : str -> presult) (rs : rsQ) s r, seg s = POk r ->
-  (p_emails r <> [] -> scoreQ seg rs s = Some (CatE, 0%Q)) /\
-  (p_emails r = [] -> p_urls r <> [] -> scoreQ seg rs s = Some (CatW, 0%Q)).
+  (p_emails r <> [] -> score_c seg rs s = Some (CatE, 0%Q)) /\
+  (p_emails r = [] -> p_urls r <> [] -> score_c seg rs s = Some (CatW, 0%Q)).
 Proof.
   intros seg rs s r E. unfold score. rewrite E. split.
   - intros H. apply nonempty_true in H. now rewrite H.
@@ -80,10 +97,11 @@ Definition rs_sharp : rsQ :=
 Definition w_sharp : str := [7838%N].
 
 Lemma refuted_case_sharp_s :
-  scoreQ (parse_s (scorer_mw_Q rs_sharp)) rs_sharp w_sharp = Some (CatOther, (1 * 1 * (1#2) * 1)%Q) /\
+  score_old (parse_s (scorer_mw_Q rs_sharp)) rs_sharp w_sharp = Some (CatOther, (1 * 1 * (1#2) * 1)%Q) /\
+  score_c (parse_s (scorer_mw_Q rs_sharp)) rs_sharp w_sharp = Some (CatOther, 0%Q) /\
   ~ c_case_ok w_sharp /\ forall p, ~ c_generates rs_sharp w_sharp p.
 Proof.
-  split; [vm_compute; reflexivity|]. split.
+  split; [vm_compute; reflexivity|]. split; [vm_compute; reflexivity|]. split.
   - intros H. inversion H as [|? ? Hc _]; subst. vm_compute in Hc. discriminate.
   - intros p (ls & bp & picks & Hin & Hf & Hs & _). simpl in Hin. destruct Hin as [Hin|[]]. injection Hin as <- <-.
     inversion Hf as [|? tp ? ps Hpk Hf']; subst. inversion Hf'; subst. simpl in Hs. rewrite app_nil_r in Hs.
@@ -97,13 +115,12 @@ Qed.
    the same ruleset *)
 Definition w_sharp_lower : str := [223%N].
 Lemma demo_promise :
-  scoreQ (parse_s (scorer_mw_Q rs_sharp)) rs_sharp w_sharp_lower = Some (CatOther, (1 * 1 * (1#2) * 1)%Q) /\
-  c_case_ok w_sharp_lower /\ c_generates rs_sharp w_sharp_lower (1 * 1 * (1#2) * 1)%Q.
+  score_c (parse_s (scorer_mw_Q rs_sharp)) rs_sharp w_sharp_lower = Some (CatOther, (1 * 1 * (1#2) * 1)%Q) /\
+  c_generates rs_sharp w_sharp_lower (1 * 1 * (1#2) * 1)%Q.
 Proof.
-  assert (E : scoreQ (parse_s (scorer_mw_Q rs_sharp)) rs_sharp w_sharp_lower = Some (CatOther, (1 * 1 * (1#2) * 1)%Q))
+  assert (E : score_c (parse_s (scorer_mw_Q rs_sharp)) rs_sharp w_sharp_lower = Some (CatOther, (1 * 1 * (1#2) * 1)%Q))
     by (vm_compute; reflexivity).
-  assert (C : c_case_ok w_sharp_lower) by (constructor; [vm_compute; reflexivity|constructor]).
-  split; [exact E|]. split; [exact C|].
-  apply (promise_c rs_sharp (scorer_mw_Q rs_sharp) w_sharp_lower CatOther); [discriminate|exact E| |exact C].
+  split; [exact E|].
+  apply (promise_c rs_sharp (scorer_mw_Q rs_sharp) w_sharp_lower CatOther); [discriminate|exact E|].
   intros H. vm_compute in H. discriminate.
 Qed.
